@@ -13,6 +13,10 @@ Value specs (JSON):
 """
 from __future__ import annotations
 
+import os as _os
+
+_os.environ.setdefault("TORCH_CPP_LOG_LEVEL", "ERROR")  # C++ TORCH_WARN lines would pollute the check's output
+
 import math
 import re
 
